@@ -35,14 +35,36 @@ func Equal(a, b any) bool { //nolint: gocyclo
 		return ra.Convert(float64Type).Float() == rb.Convert(float64Type).Float()
 	case reflect.String:
 		return ra.String() == rb.String()
+	case reflect.Map:
+		if ra.Len() != rb.Len() || ra.Type().Key() != rb.Type().Key() {
+			return false
+		}
+		for _, k := range ra.MapKeys() {
+			bv := rb.MapIndex(k)
+			if !bv.IsValid() || !Equal(ra.MapIndex(k).Interface(), bv.Interface()) {
+				return false
+			}
+		}
+		return true
 	case reflect.Ptr:
 		if rb.Kind() == reflect.Ptr && (ra.IsNil() || rb.IsNil()) {
 			return ra.IsNil() == rb.IsNil()
 		}
-		return a == b
+		return safeEqual(a, b)
 	default:
-		return a == b
+		return safeEqual(a, b)
 	}
+}
+
+// safeEqual is a == b, except that values of an uncomparable dynamic type
+// (for which == panics) are compared structurally.
+func safeEqual(a, b any) (eq bool) {
+	defer func() {
+		if recover() != nil {
+			eq = reflect.DeepEqual(a, b)
+		}
+	}()
+	return a == b
 }
 
 // Less returns a bool indicating whether a < b.
